@@ -1,4 +1,5 @@
 import BoolFn.Proofs.Oracle
+import BoolFn.Proofs.Recipe
 import BoolFn.Proofs.BddOps
 import BoolFn.Proofs.TableOps
 import BoolFn.Bdd
